@@ -57,6 +57,7 @@ SaveOut saveNif(NifFile& nif, const SaveSpec& spec) {
 	SimOBuf ob;
 	ob.failAfter = spec.failAfter;
 	ob.keepLog = spec.keepLog;
+	ob.seekable = !spec.nonSeekable;
 	std::ostream os(&ob);
 	NifSaveOptions o;
 	if (spec.raw) { o.optimize = false; o.sortBlocks = false; }
